@@ -592,6 +592,40 @@ func TestC05(t *testing.T) {
 			cur = next
 			nontrivial = nontrivial || handover
 			sig = append(sig, fmt.Sprintf("%s%d%v", path, len(changed), handover))
+			// a checked write that has to be refused (it would give a second row the values of a
+			// schema index of a cached row) must leave the cache and every index as they were
+			if len(cfg.Schema) > 0 && len(cur) > 0 && rapid.IntRange(0, 2).Draw(t, "refusedwrite") == 0 {
+				uuids := kit.SortedUUIDs(cur)
+				holder := rapid.SampledFrom(uuids).Draw(t, "refusedholder")
+				idx := cfg.Schema[rapid.IntRange(0, len(cfg.Schema)-1).Draw(t, "refusedindex")]
+				clash := genIndexRow(t, tb)
+				for _, cn := range idx {
+					clash[cn] = cur[holder][cn].Clone()
+				}
+				var rerr error
+				what := ""
+				if len(uuids) > 1 && rapid.Bool().Draw(t, "refusedupdate") {
+					victim := uuids[0]
+					if victim == holder {
+						victim = uuids[1]
+					}
+					what = fmt.Sprintf("Update(%s, checked) to the values of index %v of %s", victim, idx, holder)
+					_, rerr = rc.Update(victim, w.ModelFromRow(tb.Name, victim, clash), true)
+				} else {
+					fresh++
+					nu := kit.MkUUID(fresh)
+					what = fmt.Sprintf("Create(%s, checked) with the values of index %v of %s", nu, idx, holder)
+					rerr = rc.Create(nu, w.ModelFromRow(tb.Name, nu, clash), true)
+				}
+				kase.Batches = append(kase.Batches, "refused: "+what)
+				if rerr == nil {
+					kit.Fail(t, "C05", "index.duplicate-accepted", kase, "%s was accepted", what)
+				}
+				if m := checkCacheIndexes(w, tb, cfg, rc, cur, nil); m != nil {
+					kit.Fail(t, "C05", m.Class, kase, "after the refused %s: %s", what, m.Msg)
+				}
+				kit.Label("C05", "refused-checked-write")
+			}
 		}
 		kit.Record("C05", fmt.Sprint(cfg)+strings.Join(sig, "|"), nontrivial, func() interface{} { return kase }, "batches")
 	})
